@@ -335,9 +335,37 @@ def run(ctx):
     if not use_lean:
         ctx.notes.append("Lean driver not available: only the direct oracle (Python reference of the spec) ran")
     run_corpus(ctx)
+    deep_generic_executor(ctx)
     shared_document_fixed(ctx)
     from corr import C04_default
     C04_default.run(ctx)       # plain data + the real default_resolver
+
+
+def deep_generic_executor(ctx):
+    """a validated operation nested through a `[T!]!` field: the generic Executor (process_graphql_query) must answer
+    what BlockingExecutor answers (the parser accepts ~249 levels, validation ~121)"""
+    from py_gql import build_schema, graphql_blocking, process_graphql_query
+    sdl = "type Query { n: Int, nl: [Query!]! }"
+    schema = build_schema(sdl)
+    schema.default_resolver = lambda root, c, info, **a: 1 if info.field_definition.name == "n" else [{}]
+    for depth in (40, 90):
+        text = "{" + "nl{" * depth + "n" + "}" * depth + "}"
+        out = {}
+        for name, fn in (("blocking", graphql_blocking), ("generic", process_graphql_query)):
+            try:
+                r = fn(schema, text)
+                out[name] = "ok" if not r.errors and r.data is not None else "errors"
+            except RecursionError:
+                out[name] = "RecursionError"
+            except Exception as e:  # noqa
+                out[name] = type(e).__name__
+        ctx.count()
+        ctx.stat("deep-generic-executor:%d:%s" % (depth, out["generic"]))
+        if out["generic"] != out["blocking"]:
+            ctx.fail("generic-executor-recursion:nonnull-list-depth-%d" % depth,
+                     "a validated operation nested %d levels through a `[T!]!` field is answered by BlockingExecutor (%s) but the "
+                     "generic Executor ends in %s" % (depth, out["blocking"], out["generic"]),
+                     {"sdl": sdl, "document": text[:60] + "...", "depth": depth, "stream": "deep-generic-executor", "outcome": out}, kind="property")
 
 
 PETS_SDL = ("type Query { pets: [Pet!], pet: Pet }\ninterface Pet { name: String, owner: Owner }\n"
@@ -453,6 +481,21 @@ def run_corpus(ctx):
 
 def replay(ctx, data, quiet=False):
     inp = data.get("input", data)
+    if inp.get("stream") == "deep-generic-executor":
+        class _C2:
+            def __init__(self):
+                self.bad = []
+            def fail(self, sig, *a, **k):
+                self.bad.append(sig)
+            def count(self, k=1):
+                pass
+            def stat(self, n, k=1):
+                pass
+        c2 = _C2()
+        deep_generic_executor(c2)
+        if c2.bad:
+            print("fails:", c2.bad)
+        return not c2.bad
     if inp.get("stream") == "default-resolver-negative":
         from corr import C04_default
         from py_gql import build_schema
